@@ -142,7 +142,7 @@ def r2_temperature_complete(ctx):
     # convert() raises for a missing method instead of falling back silently
     conv = ctx.fn(U, "UnitType.convert")
     s = norm(conv)
-    ctx.check("hasattr(self, self.conversion[0])" in s and any(isinstance(x, ast.Raise) for x in ast.walk(conv)), U,
+    ctx.form("hasattr(self, self.conversion[0])" in s and any(isinstance(x, ast.Raise) for x in ast.walk(conv)), U,
               "UnitType.convert", "missing conversion method is an error")
 
 
@@ -440,7 +440,7 @@ def r6_tables_agree(ctx):
     loops = [n for n in fn.body if isinstance(n, ast.For)]
     ok = len(loops) == 1 and norm(loops[0].iter) == "UNIT_TYPES" and any(isinstance(x, ast.Return) for x in ast.walk(loops[0])) \
         and any(isinstance(x, ast.Raise) for x in loops[0].orelse)
-    ctx.check(ok, q, "Quantity._convert", "first claiming type converts; no claiming type is an error")
+    ctx.form(ok, q, "Quantity._convert", "first claiming type converts; no claiming type is an error")
 
 
 RULES = [
